@@ -41,7 +41,8 @@ type c10World struct {
 }
 
 type c10Op struct {
-	Op    string `json:"op"` // mpd | licence | init | seg | restart
+	Op    string `json:"op"`            // mpd | licence | init | seg | restart | use
+	Use   string `json:"use,omitempty"` // op use: the DRM URL part (eccp_cenc | eccp_cbcs | drm_<package>) that the following ops request
 	Rep   int    `json:"rep,omitempty"`
 	Back  int    `json:"back,omitempty"`  // seg: how many segments behind the newest one of the MPD
 	Delay int64  `json:"delay,omitempty"` // ms after T0 at which the request is made
@@ -111,6 +112,26 @@ func c10GenPackages(rng *core.Rng) []c10Package {
 		}
 	}
 	return pk
+}
+
+// c10Sibling returns a package with the same scheme and key layout as p, but other key ids,
+// keys and IVs: what a second customer on the same server would have configured.
+func c10Sibling(rng *core.Rng, p c10Package, name string) c10Package {
+	sib := c10Package{Name: name}
+	switch {
+	case strings.HasSuffix(p.File, "cpix_1key_cbcs_test.xml"):
+		sib.Keys = []c10Key{{Scheme: "cbcs"}}
+	case strings.HasSuffix(p.File, "cpix_2keys_cbcs_test.xml"):
+		sib.Keys = []c10Key{{Scheme: "cbcs", Track: "VIDEO"}, {Scheme: "cbcs", Track: "AUDIO"}}
+	default:
+		for _, k := range p.Keys {
+			sib.Keys = append(sib.Keys, c10Key{Scheme: k.Scheme, Track: k.Track})
+		}
+	}
+	for i := range sib.Keys {
+		sib.Keys[i].KID, sib.Keys[i].Key, sib.Keys[i].IV = randHex(rng, 16), randHex(rng, 16), randHex(rng, 16)
+	}
+	return sib
 }
 
 func (C10) Gen(rng *core.Rng, tier string, idx int) *core.Scenario {
@@ -198,6 +219,55 @@ func (C10) Gen(rng *core.Rng, tier string, idx int) *core.Scenario {
 			w.DRM = core.Pick(rng, []string{"eccp_cenc", "eccp_cbcs"})
 		}
 	}
+	// Package switching inside one session: the same instance is asked for the same asset under
+	// several DRM selections, of which at least two are CPIX packages with the same scheme but
+	// other keys; ClearKey is interleaved as well.
+	var sels []string // the selections in the order of their first use; sels[0] == w.DRM
+	if (w.Kind == "cpix" && rng.Chance(0.55)) || (w.Kind == "clearkey" && rng.Chance(0.3)) {
+		if len(w.Pkgs) == 0 {
+			w.Pkgs = c10GenPackages(rng)
+		}
+		base := w.Pkgs[rng.Intn(len(w.Pkgs))]
+		if w.Kind == "cpix" {
+			for _, p := range w.Pkgs {
+				if "drm_"+p.Name == w.DRM {
+					base = p
+				}
+			}
+		}
+		for j := range base.Keys {
+			if base.Keys[j].IV == "" {
+				base.Keys = nil // never pair with the IV-less variant (it fails on its own)
+				break
+			}
+		}
+		sels = []string{w.DRM}
+		if base.File != "" || len(base.Keys) > 0 {
+			sib := c10Sibling(rng, base, fmt.Sprintf("pkg-%c%d", 'a'+byte(rng.Intn(26)), len(w.Pkgs)))
+			w.Pkgs = append(w.Pkgs, sib)
+			if w.Kind == "clearkey" {
+				sels = append(sels, "drm_"+base.Name)
+			}
+			sels = append(sels, "drm_"+sib.Name)
+		}
+		if rng.Chance(0.5) {
+			cand := []string{"eccp_cenc", "eccp_cbcs"}
+			for _, p := range w.Pkgs {
+				cand = append(cand, "drm_"+p.Name)
+			}
+			c := core.Pick(rng, cand)
+			dup := false
+			for _, x := range sels {
+				dup = dup || x == c
+			}
+			if !dup {
+				sels = append(sels, c)
+			}
+		}
+		if len(sels) < 2 {
+			sels = nil
+		}
+	}
 	sc := core.NewScenario("C10", "tlsim", 0, tier, w)
 
 	// the representations of the MPD, as the reference model lists them (document order)
@@ -244,6 +314,61 @@ func (C10) Gen(rng *core.Rng, tier string, idx int) *core.Scenario {
 			}
 		}
 		add(c10Op{Op: "mpd", DRM: true, Delay: delay()})
+	} else if len(sels) >= 2 {
+		// phases: A (full) - B (full) - A again - [C (full)] - [B again], optionally with a restart
+		// at a phase boundary. "again" = the player returns to a selection it has the MPD of.
+		phase := func(sel string, full bool, nBack int) {
+			if sel != w.DRM || len(ops) > 0 {
+				ops = append(ops, c10Op{Op: "use", Use: sel})
+			}
+			var mid []c10Op
+			if full {
+				add(c10Op{Op: "mpd"})
+				if drmKind(sel) == "clearkey" {
+					mid = append(mid, c10Op{Op: "licence"})
+				}
+				for r := 0; r < nReps; r++ {
+					mid = append(mid, c10Op{Op: "init", Rep: r})
+				}
+			} else {
+				for r := 0; r < nReps; r++ {
+					if rng.Chance(0.7) {
+						mid = append(mid, c10Op{Op: "init", Rep: r})
+					}
+				}
+			}
+			rng.Shuffle(len(mid), func(i, j int) { mid[i], mid[j] = mid[j], mid[i] })
+			for _, op := range mid {
+				add(op)
+			}
+			for b := nBack - 1; b >= 0; b-- {
+				for r := 0; r < nReps; r++ {
+					add(c10Op{Op: "seg", Rep: r, Back: b, Delay: delay()})
+				}
+			}
+		}
+		boundary := func() {
+			if rng.Chance(0.3) {
+				ops = append(ops, c10Op{Op: "restart"})
+			}
+		}
+		short := 2
+		if span < short {
+			short = span
+		}
+		phase(sels[0], true, span)
+		boundary()
+		phase(sels[1], true, short+rng.Intn(2))
+		boundary()
+		phase(sels[0], false, short)
+		if len(sels) > 2 {
+			boundary()
+			phase(sels[2], true, short)
+		}
+		if rng.Bool() {
+			boundary()
+			phase(sels[1], false, short)
+		}
 	} else {
 		add(c10Op{Op: "mpd"})
 		mid := []c10Op{}
@@ -445,19 +570,14 @@ type c10Rep struct {
 	Encryptable bool   // the clear sample entry is one livesim2 prepares for encryption (AVC / AAC)
 }
 
-type c10Session struct {
-	res   *core.Result
-	w     c10World
-	a     *refmodel.Asset
+// c10Ctx is the player's state under one DRM selection (the DRM part of the URL). A session
+// may switch between selections on the same server instance ("use" op); everything observed
+// (MPD, licence keys, inits) is kept and compared per selection.
+type c10Ctx struct {
+	drm   string // URL part: eccp_cenc | eccp_cbcs | drm_<package>
+	kind  string // clearkey | cpix
+	drmPx string // URL prefix with the DRM parameter
 	feat  map[string]string
-	srv   *hx.Srv // the DRM session's current instance
-	twin  *hx.Srv
-	opts  hx.SrvOpts
-	inst  int // instance counter (restarts)
-	dir   string
-	docs  map[string]*c10CPIXDoc // by package name
-	drmPx string                 // URL prefix with the DRM parameter
-	clrPx string
 
 	mpdT     int64
 	cm       *ClientMPD
@@ -467,8 +587,105 @@ type c10Session struct {
 	keys     map[string][]byte // kid hex -> key
 	keyInst  map[string]int
 	inits    map[string]*c10InitObs
-	lo, hi   int64
 	wrapSeen map[string]map[int64]bool
+}
+
+type c10Session struct {
+	res    *core.Result
+	w      c10World
+	a      *refmodel.Asset
+	srv    *hx.Srv // the DRM session's current instance
+	twin   *hx.Srv
+	opts   hx.SrvOpts
+	inst   int // instance counter (restarts)
+	dir    string
+	docs   map[string]*c10CPIXDoc // by package name
+	clrPx  string
+	lo, hi int64
+
+	*c10Ctx                     // the active selection
+	ctxs     map[string]*c10Ctx // by DRM URL part
+	switches int                // how often the active selection changed
+}
+
+func drmKind(drm string) string {
+	if strings.HasPrefix(drm, "drm_") {
+		return "cpix"
+	}
+	return "clearkey"
+}
+
+// ctx returns (creating it on first use) the state for a DRM selection.
+func (s *c10Session) ctx(drm string) *c10Ctx {
+	if c, ok := s.ctxs[drm]; ok {
+		return c
+	}
+	if drm != "eccp_cenc" && drm != "eccp_cbcs" {
+		if !strings.HasPrefix(drm, "drm_") || s.docs[strings.TrimPrefix(drm, "drm_")] == nil {
+			panic("harness: unknown DRM selection " + drm)
+		}
+	}
+	c := &c10Ctx{drm: drm, kind: drmKind(drm), keys: map[string][]byte{}, keyInst: map[string]int{}, inits: map[string]*c10InitObs{},
+		wrapSeen: map[string]map[int64]bool{}}
+	cfg := s.w.Cfg
+	cfg.Extra = append(append([]string(nil), s.w.Cfg.Extra...), drm)
+	c.drmPx = cfg.Prefix(s.w.Asset)
+	delivery := "whole"
+	if s.w.Cfg.ChunkDur != "" {
+		delivery = "chunked"
+	}
+	mt := s.w.Cfg.MPDType
+	if mt == "" {
+		mt = "number"
+	}
+	c.feat = core.Sig("drm", drmLabel(drm, s.docs), "mpdtype", mt, "delivery", delivery)
+	if s.w.Kind == "preenc" {
+		c.feat["asset"] = "pre-encrypted-" + s.w.PreEnc.Scheme
+	} else if d := s.docs[strings.TrimPrefix(drm, "drm_")]; d != nil && c.kind == "cpix" && d.Keys[d.Order[0]].IV == "" {
+		c.feat["cpix-iv"] = "absent"
+	}
+	s.ctxs[drm] = c
+	return c
+}
+
+// opUse switches the DRM selection of the following requests (same server instance).
+func (s *c10Session) opUse(op c10Op) {
+	if op.Use == "" || op.Use == s.drm {
+		s.res.Count("skip.use-same")
+		return
+	}
+	if s.w.Kind == "preenc" {
+		// the pre-encrypted asset's own state does not depend on the parameter that is refused
+		cur := s.c10Ctx
+		nc := s.ctx(op.Use)
+		drm, kind, px, feat := nc.drm, nc.kind, nc.drmPx, nc.feat
+		*nc = *cur
+		nc.drm, nc.kind, nc.drmPx, nc.feat = drm, kind, px, feat
+		s.c10Ctx = nc
+	} else {
+		prev := s.c10Ctx
+		_, known := s.ctxs[op.Use]
+		s.c10Ctx = s.ctx(op.Use)
+		if known {
+			s.res.Count("probe.return-to-earlier-selection")
+		}
+		if prev.kind != s.kind {
+			s.res.Count("probe.clearkey-cpix-interleaved")
+		}
+	}
+	s.switches++
+	s.res.Count("fault.package-switch")
+	s.res.Event("use %s (instance %d)", op.Use, s.inst)
+}
+
+// sw adds the "pkg-switch" feature when the session has changed its DRM selection before this
+// point. The feature is absent otherwise, so that signatures (and committed replay files) of
+// sessions that never switch stay what they were.
+func (s *c10Session) sw(sig map[string]string) map[string]string {
+	if s.switches > 0 {
+		sig["pkg-switch"] = "true"
+	}
+	return sig
 }
 
 func (s *c10Session) touch(t int64) {
@@ -488,19 +705,19 @@ func (s *c10Session) newSrv() *hx.Srv {
 	return srv
 }
 
-func drmLabel(w c10World, docs map[string]*c10CPIXDoc) string {
+func drmLabel(drm string, docs map[string]*c10CPIXDoc) string {
 	switch {
-	case w.DRM == "eccp_cenc":
+	case drm == "eccp_cenc":
 		return "cenc"
-	case w.DRM == "eccp_cbcs":
+	case drm == "eccp_cbcs":
 		return "cbcs"
-	case strings.HasPrefix(w.DRM, "drm_"):
-		if d := docs[strings.TrimPrefix(w.DRM, "drm_")]; d != nil {
+	case strings.HasPrefix(drm, "drm_"):
+		if d := docs[strings.TrimPrefix(drm, "drm_")]; d != nil {
 			return "cpix-" + d.Keys[d.Order[0]].Scheme
 		}
 		return "cpix"
 	}
-	return w.DRM
+	return drm
 }
 
 func (C10) Run(t *testing.T, sc *core.Scenario, res *core.Result) {
@@ -512,8 +729,7 @@ func (C10) Run(t *testing.T, sc *core.Scenario, res *core.Result) {
 	if err != nil {
 		panic(err)
 	}
-	s := &c10Session{res: res, w: w, keys: map[string][]byte{}, keyInst: map[string]int{}, inits: map[string]*c10InitObs{},
-		docs: map[string]*c10CPIXDoc{}, wrapSeen: map[string]map[int64]bool{}}
+	s := &c10Session{res: res, w: w, docs: map[string]*c10CPIXDoc{}, ctxs: map[string]*c10Ctx{}}
 	needDir := len(w.Pkgs) > 0 || w.Kind == "preenc"
 	if needDir {
 		s.dir = hx.TempDir("c10")
@@ -546,25 +762,8 @@ func (C10) Run(t *testing.T, sc *core.Scenario, res *core.Result) {
 	} else {
 		s.srv = s.newSrv()
 	}
-	drmCfg := w.Cfg
-	drmCfg.Extra = append(append([]string(nil), w.Cfg.Extra...), w.DRM)
-	s.drmPx = drmCfg.Prefix(w.Asset)
 	s.clrPx = w.Cfg.Prefix(w.Asset)
-	delivery := "whole"
-	if w.Cfg.ChunkDur != "" {
-		delivery = "chunked"
-	}
-	mt := w.Cfg.MPDType
-	if mt == "" {
-		mt = "number"
-	}
-	s.feat = core.Sig("drm", drmLabel(w, s.docs), "mpdtype", mt, "delivery", delivery)
-	if w.Kind == "preenc" {
-		s.feat["asset"] = "pre-encrypted-" + w.PreEnc.Scheme
-	}
-	if d := s.docs[strings.TrimPrefix(w.DRM, "drm_")]; d != nil && w.Kind == "cpix" && d.Keys[d.Order[0]].IV == "" {
-		s.feat["cpix-iv"] = "absent"
-	}
+	s.c10Ctx = s.ctx(w.DRM)
 	for _, op := range ops {
 		res.Count("op." + op.Op)
 		switch op.Op {
@@ -573,6 +772,8 @@ func (C10) Run(t *testing.T, sc *core.Scenario, res *core.Result) {
 			s.inst++
 			res.Count("fault.restart")
 			res.Event("restart -> instance %d", s.inst)
+		case "use":
+			s.opUse(op)
 		case "mpd":
 			if w.Kind == "preenc" {
 				s.preMPD(op)
@@ -602,14 +803,14 @@ func (C10) Run(t *testing.T, sc *core.Scenario, res *core.Result) {
 }
 
 func (s *c10Session) violate(inv string, extra map[string]string, format string, args ...any) {
-	s.res.Violate("C10."+inv, merge(s.feat, extra), format, args...)
+	s.res.Violate("C10."+inv, s.sw(merge(s.feat, extra)), format, args...)
 }
 
 // served reports invariant (5) for a well-formed session request: no panic, no 5xx. The
 // signature carries only what separates causes (request kind, content class, DRM family).
 func (s *c10Session) served(r *hx.Resp, what string, rp *c10Rep, target string) bool {
 	fam := "clearkey"
-	if strings.HasPrefix(s.w.DRM, "drm_") {
+	if s.kind == "cpix" {
 		fam = "cpix"
 	}
 	sig := core.Sig("request", what, "drm-family", fam)
@@ -620,12 +821,12 @@ func (s *c10Session) served(r *hx.Resp, what string, rp *c10Rep, target string) 
 		sig = merge(sig, s.contentSig(rp))
 	}
 	if r.Panic != "" {
-		s.res.Violate("C10.no-panic", merge(sig, core.Sig("kind", "panic", "frame", r.PanicFrame)),
+		s.res.Violate("C10.no-panic", s.sw(merge(sig, core.Sig("kind", "panic", "frame", r.PanicFrame))),
 			"%s: handler panicked: %s (status %d)", target, r.Panic, r.Status)
 		return false
 	}
 	if r.Status >= 500 {
-		s.res.Violate("C10.no-5xx", merge(sig, core.Sig("kind", "5xx", "status", fmt.Sprint(r.Status))),
+		s.res.Violate("C10.no-5xx", s.sw(merge(sig, core.Sig("kind", "5xx", "status", fmt.Sprint(r.Status)))),
 			"%s: status %d %q", target, r.Status, trunc(string(r.Body), 120))
 		return false
 	}
@@ -725,21 +926,21 @@ func (s *c10Session) opMPD(op c10Op) {
 				continue
 			}
 			if cp == nil || !cp.Has || cp.KID == "" {
-				s.violate("mpd-protection", merge(c, core.Sig("kind", "no-default-kid")), "rep %s (%s): no ContentProtection with default_KID in a %s MPD", rp.CA.RepID, rp.Content, s.w.DRM)
+				s.violate("mpd-protection", merge(c, core.Sig("kind", "no-default-kid")), "rep %s (%s): no ContentProtection with default_KID in a %s MPD", rp.CA.RepID, rp.Content, s.drm)
 				continue
 			}
 			if len(cp.KID) != 32 {
 				s.violate("mpd-protection", merge(c, core.Sig("kind", "malformed-default-kid")), "rep %s: default_KID %q", rp.CA.RepID, cp.KID)
 				continue
 			}
-			want := strings.TrimPrefix(s.w.DRM, "eccp_")
-			if s.w.Kind == "clearkey" && cp.Scheme != want {
-				s.violate("mpd-protection", merge(c, core.Sig("kind", "scheme-not-requested")), "rep %s: mp4protection value %q for %s", rp.CA.RepID, cp.Scheme, s.w.DRM)
+			want := strings.TrimPrefix(s.drm, "eccp_")
+			if s.kind == "clearkey" && cp.Scheme != want {
+				s.violate("mpd-protection", merge(c, core.Sig("kind", "scheme-not-requested")), "rep %s: mp4protection value %q for %s", rp.CA.RepID, cp.Scheme, s.drm)
 			}
-			if s.w.Kind == "clearkey" && len(cp.LaURLs) == 0 {
+			if s.kind == "clearkey" && len(cp.LaURLs) == 0 {
 				s.violate("mpd-protection", merge(c, core.Sig("kind", "no-licence-url")), "rep %s: no licence URL in the ClearKey MPD", rp.CA.RepID)
 			}
-			if s.w.Kind == "cpix" {
+			if s.kind == "cpix" {
 				s.checkCPIXAnnounce(rp, cp)
 			}
 		}
@@ -749,9 +950,9 @@ func (s *c10Session) opMPD(op c10Op) {
 
 // checkCPIXAnnounce relates the MPD's descriptors to the configured CPIX document.
 func (s *c10Session) checkCPIXAnnounce(rp *c10Rep, cp *c10CP) {
-	doc := s.docs[strings.TrimPrefix(s.w.DRM, "drm_")]
+	doc := s.docs[strings.TrimPrefix(s.drm, "drm_")]
 	if doc == nil {
-		panic("harness: no CPIX document for " + s.w.DRM)
+		panic("harness: no CPIX document for " + s.drm)
 	}
 	c := core.Sig("content", rp.Content)
 	k, ok := doc.Keys[cp.KID]
@@ -781,7 +982,7 @@ func (s *c10Session) checkCPIXAnnounce(rp *c10Rep, cp *c10CP) {
 }
 
 func (s *c10Session) opLicence(op c10Op) {
-	if s.cm == nil || s.w.Kind != "clearkey" {
+	if s.cm == nil || s.kind != "clearkey" {
 		s.res.Count("skip.licence")
 		return
 	}
@@ -937,6 +1138,18 @@ func (s *c10Session) opInit(op c10Op) {
 		}
 	}
 	s.inits[rp.CA.RepID] = obs
+	// rare condition: this instance has already served this representation's init under another
+	// selection with the same scheme (state carried from one package to the other would show here)
+	for _, name := range sortedKeys(s.ctxs) {
+		o := s.ctxs[name]
+		if o == s.c10Ctx || o.feat["drm"] != s.feat["drm"] {
+			continue
+		}
+		if oi := o.inits[rp.CA.RepID]; oi != nil && oi.Instance == s.inst {
+			s.res.Count("probe.init-after-same-scheme-package-on-same-instance")
+			break
+		}
+	}
 	cp := s.cps[rp.CA.RepID]
 	te := obs.Tenc
 	if cp == nil || !cp.Has {
@@ -949,7 +1162,7 @@ func (s *c10Session) opInit(op c10Op) {
 	}
 	// (1) MPD default_KID == init tenc KID
 	if !te.HasSinf || len(te.KID) == 0 {
-		s.res.Violate("C10.kid-mpd-equals-init", merge(c, core.Sig("kind", "init-not-protected")), "%s: MPD announces default_KID %s, the init has sample entry %q without protection box", target, cp.KID, te.SampleType)
+		s.res.Violate("C10.kid-mpd-equals-init", s.sw(merge(c, core.Sig("kind", "init-not-protected"))), "%s: MPD announces default_KID %s, the init has sample entry %q without protection box", target, cp.KID, te.SampleType)
 		return
 	}
 	if hex.EncodeToString(te.KID) != cp.KID {
@@ -974,7 +1187,7 @@ func (s *c10Session) opInit(op c10Op) {
 			if v, ok := s.feat["cpix-iv"]; ok {
 				sig["cpix-iv"] = v
 			}
-			s.res.Violate("C10.init", sig, "%s: cbcs without per-sample IV and constant IV of %d bytes", target, len(te.ConstIV))
+			s.res.Violate("C10.init", s.sw(sig), "%s: cbcs without per-sample IV and constant IV of %d bytes", target, len(te.ConstIV))
 		}
 		s.res.Count(fmt.Sprintf("probe.cbcs-pattern-%d-%d", te.Crypt, te.Skip))
 	}
@@ -1170,7 +1383,12 @@ func (s *c10Session) opSeg(op c10Op) {
 		s.res.Count("skip.seg-init-not-protected")
 		return
 	}
-	kid := hex.EncodeToString(te.KID)
+	// the key is the one the licence gives for the id the MPD announces (the statement's chain:
+	// MPD default_KID -> licence -> key -> decrypt with the served init)
+	kid := cp.KID
+	if len(kid) != 32 {
+		kid = hex.EncodeToString(te.KID)
+	}
 	key, ok := s.keys[kid]
 	if !ok {
 		s.res.Count("skip.seg-no-key")
@@ -1383,17 +1601,17 @@ func (s *c10Session) preMPD(op c10Op) {
 func (s *c10Session) refused(r *hx.Resp, what, content, target string) {
 	s.res.Count("probe.preenc-drm-request")
 	fam := "clearkey"
-	if strings.HasPrefix(s.w.DRM, "drm_") {
+	if s.kind == "cpix" {
 		fam = "cpix"
 	}
 	sig := core.Sig("request", what, "drm-family", fam, "asset", "pre-encrypted")
 	if r.Panic != "" {
-		s.res.Violate("C10.preenc-refused", merge(sig, core.Sig("kind", "panic", "frame", r.PanicFrame)),
+		s.res.Violate("C10.preenc-refused", s.sw(merge(sig, core.Sig("kind", "panic", "frame", r.PanicFrame))),
 			"%s (%s): handler panicked instead of refusing: %s (status %d)", target, content, r.Panic, r.Status)
 		return
 	}
 	if r.Status >= 200 && r.Status < 300 {
-		s.res.Violate("C10.preenc-refused", merge(sig, core.Sig("kind", "not-refused", "status", fmt.Sprint(r.Status))),
+		s.res.Violate("C10.preenc-refused", s.sw(merge(sig, core.Sig("kind", "not-refused", "status", fmt.Sprint(r.Status)))),
 			"%s (%s): status %d, %d bytes", target, content, r.Status, len(r.Body))
 		return
 	}
@@ -1611,15 +1829,23 @@ func (C10) ShrinkCandidates(sc *core.Scenario) []*core.Scenario {
 		c.Cfg.MPDType = "number"
 		return ok
 	})
+	used := map[string]bool{}
+	if uops, err := core.DecodeOps[c10Op](sc); err == nil {
+		for _, op := range uops {
+			if op.Op == "use" {
+				used[op.Use] = true
+			}
+		}
+	}
 	with(func(c *c10World) bool {
-		if !strings.HasPrefix(c.DRM, "drm_") {
+		if !strings.HasPrefix(c.DRM, "drm_") && len(used) == 0 {
 			ok := len(c.Pkgs) > 0
 			c.Pkgs = nil
 			return ok
 		}
 		var keep []c10Package
 		for _, p := range c.Pkgs {
-			if "drm_"+p.Name == c.DRM {
+			if "drm_"+p.Name == c.DRM || used["drm_"+p.Name] {
 				keep = append(keep, p)
 			}
 		}
